@@ -41,6 +41,9 @@ type c03Sent struct {
 var groupBody = []fixscan.Field{{11, "ID"}, {453, "2"}, {448, "P1"}, {447, "D"}, {452, "1"}, {802, "1"}, {523, "S1"}, {803, "1"},
 	{448, "P2"}, {447, "D"}, {452, "2"}, {55, "IBM"}, {54, "1"}, {60, "20240101-00:00:00"}, {40, "1"}}
 
+// groupEndBody: the repeating group is the last thing in the body (nothing between it and the trailer)
+var groupEndBody = []fixscan.Field{{11, "ID"}, {55, "IBM"}, {54, "1"}, {60, "20240101-00:00:00"}, {40, "1"}, {453, "2"}, {448, "P1"}, {447, "D"}, {452, "1"}, {448, "P2"}, {447, "D"}, {452, "2"}}
+
 func c03PreMsg(bs string, kind byte, seq int) []byte {
 	f := []fixscan.Field{{8, bs}, {35, "D"}, {34, strconv.Itoa(seq)}, {49, sessmc.OurComp}, {52, fixscan.Stamp(time.Now().Add(-time.Minute))}, {56, sessmc.PeerComp}}
 	switch kind {
@@ -48,6 +51,8 @@ func c03PreMsg(bs string, kind byte, seq int) []byte {
 		f = append(f, fixscan.Field{11, "ID" + strconv.Itoa(seq)}, fixscan.Field{55, "X"}, fixscan.Field{58, "a=b"})
 	case 'G':
 		f = append(f, groupBody...)
+	case 'E':
+		f = append(f, groupEndBody...)
 	case 'H':
 		f[1].Value = "0"
 	}
@@ -95,6 +100,10 @@ func c03World(c c03Case) (*sessmc.World, []c03Sent, error) {
 				grab(w.Apply(sessmc.EvFlush()))
 			case 'G':
 				grab(w.Apply(&sessmc.Event{K: "send", Name: "sendG", Send: nil, SendGroup: true}))
+				grab(w.Apply(sessmc.EvFlush()))
+			case 'E':
+				// through the API the body is ordered by tag, so 453 sorts last when the other tags are smaller
+				grab(w.Apply(&sessmc.Event{K: "send", Name: "sendE", Send: []fixscan.Field{{11, "ID"}, {55, "IBM"}, {54, "1"}, {40, "1"}}, SendGroupLast: true}))
 				grab(w.Apply(sessmc.EvFlush()))
 			case 'H':
 				grab(w.Apply(sessmc.EvTimeout(quickfix.VerifNeedHeartbeat)))
@@ -197,6 +206,11 @@ func c03Check(c c03Case, w *sessmc.World, hist []c03Sent) (rule, what string) {
 		}
 		if fr := m.CheckFraming(); fr != "" {
 			return "C03/R-framing", fmt.Sprintf("reply %d: %s: %s", i, fr, fixscan.Pretty(o.Raw))
+		}
+		for _, t := range []int{8, 9, 35, 10, 34} {
+			if m.Count(t) != 1 {
+				return fmt.Sprintf("C03/R-framing-field-count tag=%d", t), fmt.Sprintf("reply %d carries tag %d %d times: %s (%s)", i, t, m.Count(t), fixscan.Pretty(o.Raw), c)
+			}
 		}
 		if !m.PossDup() {
 			return "C03/R-no-possdup", fmt.Sprintf("reply %d lacks PossDupFlag=Y: %s (%s)", i, fixscan.Pretty(o.Raw), c)
@@ -316,7 +330,7 @@ func runC03(c *core.Ctx) {
 		if len(s) == N {
 			return
 		}
-		for _, k := range "PGH" {
+		for _, k := range "PGEH" {
 			rec(s + string(k))
 		}
 	}
